@@ -51,6 +51,11 @@ def gen_case(seed, overlong=0.0):
     ncontigs = rnd.randint(1, 4)
     with_len = rnd.random() < 0.7
     contigs = [("ctg%d" % i if rnd.random() < 0.7 else "%d" % (i + 1), 1000000 + i if with_len else None) for i in range(ncontigs)]
+    # some headers declare a length for only part of their contigs (separate stream: the other choices stay as they were)
+    rnd2 = random.Random(seed * 7919 + 13)
+    if with_len and ncontigs > 1 and rnd2.random() < 0.35:
+        for i in rnd2.sample(range(ncontigs), rnd2.randint(1, ncontigs - 1)):
+            contigs[i] = (contigs[i][0], None)
     used = sorted(rnd.sample(range(ncontigs), rnd.randint(1, ncontigs)))
     filters = ["PASS"] + ["f%d" % i for i in range(rnd.randint(0, 3))]
     pass_pos = rnd.randint(0, len(filters) - 1)   # header order may put PASS anywhere
